@@ -57,6 +57,53 @@ def boundary_fractions(rnd, extra=60):
     return sorted(set(fs))
 
 
+def e2e_case(unit, us, form, prop_form):
+    """whole-microsecond instants `us` (microseconds since 1970) written with TdmsWriter as a datetime64[unit] array and as a
+    property, read back eagerly, lazily and as raw timestamps"""
+    import datetime as _dt
+    from nptdms import TdmsWriter, ChannelObject, TdmsFile
+    out = []
+    want = np.array(us, dtype="int64").astype("datetime64[us]")
+    given = want.astype("datetime64[%s]" % unit)
+    if not np.array_equal(given.astype("datetime64[us]"), want):
+        return out
+    data = np.repeat(given, 2)[::2] if form == "strided" else given
+    pv = given[0] if prop_form == "datetime64" else want[0].astype(_dt.datetime)
+    rp = dict(kind="e2e", unit=unit, form=form, microseconds=[int(x) for x in us], property=prop_form)
+    try:
+        buf = io.BytesIO()
+        with TdmsWriter(buf) as w:
+            w.write_segment([ChannelObject("g", "c", data, {"t": pv})])
+        fe = TdmsFile.read(io.BytesIO(buf.getvalue()))
+        got = fe["g"]["c"][:]
+        gp = fe["g"]["c"].properties["t"]
+        with TdmsFile.open(io.BytesIO(buf.getvalue())) as fl:
+            gl = fl["g"]["c"][:]
+        fr = TdmsFile.read(io.BytesIO(buf.getvalue()), raw_timestamps=True)
+        graw = fr["g"]["c"][:].as_datetime64("us")
+        gpraw = fr["g"]["c"].properties["t"].as_datetime64("us")
+    except Exception as ex:  # noqa
+        return [Violation("writing %d datetime64[%s] values (%s) and a %s property and reading them back raised %s: %s" % (
+            len(us), unit, form, prop_form, type(ex).__name__, str(ex)[:120]), rp)]
+    for label, g in (("eager data", got), ("lazy data", gl), ("raw timestamps converted at us", graw)):
+        if g.dtype != np.dtype("datetime64[us]") or not np.array_equal(g, want):
+            out.append(Violation("datetime64[%s] channel data %s written with TdmsWriter reads back (%s) as %s" % (unit, list(want.astype(str))[:3], label, list(np.asarray(g).astype(str))[:3]), rp))
+            break
+    for label, g in (("property", gp), ("raw property converted at us", gpraw)):
+        if np.datetime64(g, "us") != want[0] or (label == "property" and np.datetime64(g).dtype != np.dtype("datetime64[us]")):
+            out.append(Violation("%s property %s written with TdmsWriter reads back (%s) as %s" % (prop_form, want[0], label, g), rp))
+            break
+    return out
+
+
+def corpus(ctx, entry):
+    ctx.nptdms()
+    rp = entry["replay"]
+    if rp.get("kind") == "e2e":
+        return [], e2e_case(rp["unit"], rp["microseconds"], rp["form"], rp["property"])
+    return [], []
+
+
 def run(ctx):
     nptdms = ctx.nptdms()
     from nptdms.types import TimeStamp
@@ -292,11 +339,29 @@ def run(ctx):
                                 violations.append(Violation("raw timestamp property %r of %r differs in the %s" % (k, c.path, label), dict(kind="raw-file", file=data.hex(), path=p)))
             if len(violations) > 4:
                 break
+    # ---- end to end through TdmsWriter: the same instants handed over in every FORM the writer accepts (datetime64 arrays in units
+    # D / s / ms / us / ns holding whole microseconds, strided views, datetime.datetime), as channel data and as properties
+    if len(violations) <= 4:
+        for _ in range(ctx.n(60, 1500)):
+            unit = rnd.choice(["us", "us", "ns", "ns", "ms", "s", "D"])
+            per = {"us": 1, "ns": 1, "ms": 10 ** 3, "s": 10 ** 6, "D": 86400 * 10 ** 6}[unit]
+            n = rnd.choice([1, 2, 3, 5])
+            if unit == "ns":
+                us = [rnd.randrange(-9 * 10 ** 15, 9 * 10 ** 15) for _ in range(n)]          # datetime64[ns] spans 1678..2262
+            else:
+                us = [rnd.randrange(-6 * 10 ** 16, 25 * 10 ** 16) // per * per for _ in range(n)]
+            form = rnd.choice(["array", "array", "strided"])
+            prop_form = "datetime64" if rnd.random() < 0.6 or not 0 < us[0] < 2 * 10 ** 17 else "datetime"
+            counts["end_to_end"] += 1
+            distinct.add(("e2e", unit, tuple(us)))
+            violations += e2e_case(unit, us, form, prop_form)
+            if len(violations) > 4:
+                break
     ev = sum(counts.values())
     return dict(violations=violations[:5], disagreements=disagreements[:20],
                 coverage=dict(evaluations=ev, distinct_nontrivial=len(distinct),
                               rule="writer: microsecond values (thorough: all 10^6 sub-second values x 2 seconds; quick: 20 000 sampled) x sampled seconds incl. "
-                                   "pre-1904, far dates up to the datetime64[us] range; reader: (seconds, fractions) with fractions adjacent to every k*2^64/R "
+                                   "pre-1904, far dates up to the datetime64[us] range; end to end through TdmsWriter and TdmsFile (eager, lazy, raw timestamps): whole-microsecond instants handed over as datetime64 arrays in units D/s/ms/us/ns (also strided views) and as datetime64 / datetime.datetime properties; reader: (seconds, fractions) with fractions adjacent to every k*2^64/R "
                                    "boundary (offsets -2^11-1..+2), 0, 2^64-1, saturation edge, random; resolutions s/ms/us/ns, scalar and array; time_track on "
                                    "channels of length 0,1,2,3,7,50; distinct_nontrivial = distinct inputs",
                               samples=[dict(delta_us=deltas[0], model=menc[0]), dict(fraction_boundaries=fracs[:12])],
@@ -316,6 +381,10 @@ def replay(ctx, path):
     from nptdms.types import TimeStamp
     with open(path) as f:
         rp = json.load(f)["replay"]
+    if rp.get("kind") == "e2e":
+        v = e2e_case(rp["unit"], rp["microseconds"], rp["form"], rp["property"])
+        print("replay: %s" % ([x.what for x in v] or "the instants round-trip"))
+        return 1 if v else 0
     if rp.get("kind") in ("roundtrip", "write"):
         v = np.datetime64(rp["delta_us"] + EPOCH_UNIX_S * 10 ** 6, "us")
         back = TimeStamp.read(io.BytesIO(TimeStamp(v).bytes)).as_datetime64("us")
